@@ -16,6 +16,9 @@ def run_c03(res, tier):
     import jit
     jit.run_jit_rules(res, ast, ["CALL-SAVE", "CALL-PROTO", "JIT-TERM", "PROBE-SEQ", "PROBE-DIR-JIT", "ABI-OFFSETS",
                                  "LIM-JIT", "FRAME", "BR-JIT"])
+    import mirrules
+    from mir import load_facts
+    mirrules.run_layout_rules(res, load_facts(), ast)
     return extra
 
 
@@ -32,6 +35,9 @@ def run_c08(res, tier):
     iolim.run_io_map(res, ast)
     iolim.run_io_discipline(res, ast)
     jit.run_jit_rules(res, ast, ["JIT-TERM"])
+    import mirrules
+    from mir import load_facts
+    mirrules.run_site_completeness(res, load_facts(), ast, which=("io",))
     return {}
 
 
@@ -54,6 +60,16 @@ def run_c12(res, tier):
     import front
     ast = load_ast()
     front.run_parse_rules(res, ast)
+    import mirrules
+    from mir import load_facts
+    fx = load_facts()
+    mirrules.run_errpos_types(res, fx)
+    mirrules.run_counter_width(res, fx)
+    res.rule("NONREC/CG", "parse and the in-place interpreter are not on a call-graph cycle", floor=2, what="functions")
+    import common
+    r2 = common.Result(res.prop)
+    mirrules.run_callgraph_rules(r2, fx)
+    res.obs += [o for o in r2.obs if o.rule == "NONREC/CG"]
     return {}
 
 
@@ -63,6 +79,12 @@ def run_c04(res, tier):
     front.run_cmd_table(res, ast)
     front.run_cell_rules(res, ast, rules=("WRAP-BY-TYPE", "CELL-CASTS", "CELL-CONSTS", "CELL-DELEGATE"))
     iolim.run_io_map(res, ast)
+    import mirrules
+    from mir import load_facts
+    fx = load_facts()
+    mirrules.run_cell_consts(res, fx)
+    mirrules.run_cell_delegate(res, fx)
+    mirrules.run_counter_width(res, fx)
     return {}
 
 
@@ -70,6 +92,11 @@ def run_c14(res, tier):
     import front
     ast = load_ast()
     front.run_cell_rules(res, ast)
+    import mirrules
+    from mir import load_facts
+    fx = load_facts()
+    mirrules.run_cell_consts(res, fx)
+    mirrules.run_cell_delegate(res, fx)
     return {}
 
 
@@ -99,6 +126,9 @@ def run_c06(res, tier):
     passes.run_c11(res, ast, rules=("WINDOW-BY-CONSTRUCTION",))
     asmtab.run_asm_table(res, ast)
     asmtab.run_sel_width(res, ast)
+    import mirrules
+    from mir import load_facts
+    mirrules.run_layout_rules(res, load_facts(), ast)
     return {}
 
 
@@ -111,6 +141,9 @@ def run_c10(res, tier):
              "interpreters without unchecked code do not override execute_unsafe", floor=8, what="entry points")
     iolim.run_mode_map(res, ast, "SAFE-MAP")
     moves.run_prealloc(res, ast)
+    import mirrules
+    from mir import load_facts
+    mirrules.run_site_completeness(res, load_facts(), ast, which=("unsafe",))
     return {}
 
 
@@ -253,7 +286,20 @@ def run_c17(res, tier):
     import rt
     ast = load_ast()
     n = rt.run_alloc_null(res, ast)
-    return {"allocation_sites": n}
+    import mirrules
+    from mir import load_facts
+    fx = load_facts()
+    n2 = mirrules.run_alloc_null_mir(res, fx)
+    if tier == "thorough":
+        fxr = load_facts(release=True)
+        res.notes.append("thorough: MIR rule re-evaluated on the release profile (debug assertions off)")
+        import common
+        r2 = common.Result(res.prop)
+        n3 = mirrules.run_alloc_null_mir(r2, fxr)
+        for o in r2.obs:
+            o.key = "release|" + o.key
+            res.obs.append(o)
+    return {"allocation_sites_syntax": n, "allocation_sites_mir": n2}
 
 
 def run_c09(res, tier):
@@ -261,6 +307,11 @@ def run_c09(res, tier):
     ast = load_ast()
     rt.run_tape_rules(res, ast)
     rt.run_alloc_null(res, ast)
+    import mirrules
+    from mir import load_facts
+    fx = load_facts()
+    mirrules.run_alloc_null_mir(res, fx)
+    mirrules.run_callgraph_rules(res, fx)
     return {}
 
 
@@ -272,6 +323,12 @@ def run_c13(res, tier):
     det.run_iter_order(res, ast)
     det.run_exec_freeze(res, ast)
     sel.run_sel(res, ast, rules=("SEL-COVER",))
+    import mirrules
+    from mir import load_facts
+    fx = load_facts()
+    mirrules.run_hash_types(res, fx)
+    mirrules.run_freeze_rules(res, fx)
+    mirrules.run_site_completeness(res, fx, ast, which=("iter",))
     return {}
 
 
